@@ -66,6 +66,27 @@ impl Prop for C08 {
         }
         Case { id: if g.chance(1, 5) { g.raw() } else { 1 }, execs }
     }
+    fn fixed(&self, tier: Tier) -> Vec<Case> {
+        // an inline byte-string parameter that makes the COM_STMT_EXECUTE a multi-fragment request,
+        // with other parameters before and after it
+        let mut v = Vec::new();
+        let lens: &[usize] = match tier {
+            Tier::Quick => &[MAX_PAYLOAD],
+            Tier::Thorough => &[MAX_PAYLOAD - 30, MAX_PAYLOAD, (1 << 24) + 7],
+        };
+        for (i, &len) in lens.iter().enumerate() {
+            v.push(Case {
+                id: 9,
+                execs: vec![vec![
+                    Param { coltype: T_LONG, unsigned: true, value: PVal::Int(0xdead_beef) },
+                    Param { coltype: T_LONG_BLOB, unsigned: false, value: PVal::Bytes(crate::gen::pattern(i as u32 + 1, len)) },
+                    Param { coltype: T_SHORT, unsigned: false, value: PVal::Int(0xfffe) },
+                    Param { coltype: T_VAR_STRING, unsigned: false, value: PVal::Bytes(b"after the big one".to_vec()) },
+                ]],
+            });
+        }
+        v
+    }
     fn exec(&self, case: &Case) -> Exec {
         let mut ex = Exec::default();
         let n = case.execs.first().map(|e| e.len()).unwrap_or(0);
